@@ -297,6 +297,48 @@ def gen_drag_history(rng):
     if rng.random() < 0.3: emit("flush")
     emit("end")
 
+def gen_timers_history(rng):
+    """timers and deferred calls of the toplevel instance that register further timers and deferred calls while they run:
+    tickit_watch_timer_at_tv for an instant of the harness's clock that has passed (it becomes the head of the queue the
+    loop of tickit_evloop_invoke_timers is working on), that is the present, or that lies ahead; tickit_watch_later from a
+    timer and from a deferred call; handlers bound on the terminal that do the same when a key arrives during tickit_tick;
+    several ticks with the clock advanced in between; the instance dropped with such watches pending."""
+    L, C = rng.choice([(6, 12), (4, 8)])
+    emit("newtop %d %d" % (L, C))
+    nw = 1
+    for _ in range(rng.randint(0, 2)):
+        emit("win %d %d %d %d %d 0" % ((rng.randrange(nw),) + rect(rng))); nw += 1
+    now = 0
+    def reg_acts(n):
+        out = []
+        for _ in range(n):
+            r = rng.random()
+            if r < 0.45: out.append("a%d" % rng.choice([0, 0, max(0, now - 10), now, now, now + 5, now + 50, now + 200]))
+            elif r < 0.65: out.append("l")
+            elif r < 0.75 and nw > 1: out.append("%s%d" % (rng.choice("ucr"), rng.randrange(1, nw)))
+            elif r < 0.85: out.append(rng.choice(["t", "T"]))
+            else: out.append("f")
+        return out
+    if rng.random() < 0.4:
+        emit(("tbind key %d %s" % (rng.choice([0, 1]), " ".join(reg_acts(rng.randint(1, 3))))).strip())
+    inst = 1
+    for _ in range(rng.randint(4, 12)):
+        r = rng.random()
+        if r < 0.30: emit(("itimer %d %s" % (rng.choice([0, 0, 10, 50]), " ".join(reg_acts(rng.randint(1, 4))))).strip())
+        elif r < 0.42: emit(("itimerat %d %s" % (rng.choice([0, max(0, now - 20), now, now + 30]), " ".join(reg_acts(rng.randint(0, 3))))).strip())
+        elif r < 0.55: emit(("ilater " + " ".join(reg_acts(rng.randint(1, 3)))).strip())
+        elif r < 0.80: emit("itick" + (" a" if rng.random() < 0.3 else ""))
+        elif r < 0.90:
+            d = rng.choice([5, 10, 50, 100]); emit("tick %d" % d); now += d
+        elif r < 0.94: emit("icancel %d" % rng.randint(0, 6))
+        elif r < 0.97: emit("iref"); inst += 1
+        else: emit("key")
+    if rng.random() < 0.7: emit("itick")
+    if rng.random() < 0.5:
+        emit("unref 0")
+        for _ in range(inst): emit("iunref")
+    emit("end")
+
 ASCII = [0x41 + i for i in range(26)] + [0x20, 0x61, 0x7e]
 def rand_text(rng, maxchars=8):
     out = []
@@ -912,7 +954,7 @@ if a.tier == "exhaustive":
     info.update({"exhaustive_bound": "all sequences of <=3 (and a seed-selected quarter of the length-4) operations over a 13-letter lifecycle alphabet on root>1>2, 3 sibling of 1, one pen, one self-unref key handler; each followed by flush and end; tickit_mockterm_get_display_text with every buffer length (short of the known exact-fill overflow) for every span of five fixed lines of multi-byte, double-width and combining cells; all sequences of <=3 operations over a 12-letter alphabet of terminal input calls with a quitting key handler on the terminal, and over a 14-letter alphabet of toplevel-instance calls on root>1>2; tickit_mockterm_resize from 3x4 to every size of 1..5 x 1..6 and on to a second size; all sequences of <=2 (and half of those of 3) operations over a 12-letter alphabet of observe/stop/destroy/SIGWINCH on four observing terminals", "histories": nh})
 else:
     scale = 1 if a.tier == "quick" else 5
-    fams = {"tree": 700, "handlers": 700, "foreign": 400, "objects": 400, "pens": 400, "copyout": 400, "terminput": 500, "toplevel": 500, "mockresize": 360, "sigwinch": 400, "drag": 400}
+    fams = {"tree": 700, "handlers": 700, "foreign": 400, "objects": 400, "pens": 400, "copyout": 400, "terminput": 500, "toplevel": 500, "mockresize": 360, "sigwinch": 400, "drag": 400, "timers": 300}
     if a.families:
         fams = {k: v for k, v in fams.items() if k in a.families.split(",")}
     for fam, n in fams.items():
@@ -928,6 +970,7 @@ else:
             elif fam == "mockresize": gen_mockresize_history(rng, (RESIZE_KINDS[(_ // 3) % 3], RESIZE_KINDS[_ % 3]))
             elif fam == "sigwinch": gen_sigwinch_history(rng)
             elif fam == "drag": gen_drag_history(rng)
+            elif fam == "timers": gen_timers_history(rng)
             else: gen_copyout_history(rng)
             fam_count[fam] = fam_count.get(fam, 0) + 1
     info = {"histories": sum(fam_count.values()), "families": fam_count, "mresize_combinations": resize_mix}
